@@ -55,6 +55,9 @@ func c18run(t *testing.T, enc *json.Encoder, id int, sc c18scen) {
 			}()
 			switch op.Op {
 			case "Write":
+				if rb.BytesWriteable() < 0 {
+					return // completely full (the external producer filled it): the test-only Write is not meant for that state
+				}
 				data := make([]byte, op.N)
 				for i := range data {
 					data[i] = byte((off + acc + i) % 251)
@@ -62,6 +65,21 @@ func c18run(t *testing.T, enc *json.Encoder, id int, sc c18scen) {
 				k, _ := rb.Write(data)
 				acc += k
 				enc.Encode(map[string]any{"ev": "Write", "n": op.N, "ret": k})
+			case "XWrite":
+				// the producer of the real system is another process that writes into the shared region and publishes
+				// writePointer itself; it may use the last byte as well (a completely full ring)
+				w, r := rb.desc.writePointer, rb.desc.readPointer
+				capb := rb.desc.bufferSize
+				k := op.N
+				if free := int(capb - (w - r)); k > free {
+					k = free
+				}
+				for i := 0; i < k; i++ {
+					rb.raw[(w+uint64(i))%capb] = byte((off + acc + i) % 251)
+				}
+				rb.desc.writePointer = w + uint64(k)
+				acc += k
+				enc.Encode(map[string]any{"ev": "XWrite", "n": op.N, "ret": k})
 			case "Read":
 				d, _ := rb.Read(op.N)
 				enc.Encode(map[string]any{"ev": "Read", "n": op.N, "data": c18ints(d)})
@@ -153,6 +171,9 @@ func TestVerifC18(t *testing.T) {
 					k = 1 + rng.Intn(c+2)
 				}
 				op = c18op{"Discard", k}
+			}
+			if rng.Intn(8) == 0 {
+				op = c18op{"XWrite", c + rng.Intn(3)} // fill the ring to the last byte
 			}
 			if rng.Intn(25) == 0 {
 				c = caps[rng.Intn(len(caps))] // a new writer on the regions left behind, possibly with another size
